@@ -12,6 +12,8 @@ mod c06;
 mod c07;
 mod c08;
 mod c09;
+mod c10;
+mod c11;
 mod c13;
 mod c18;
 mod frames;
@@ -30,6 +32,8 @@ fn table(id: &str) -> Option<(RunFn, ReplayFn)> {
         "C07" => (c07::run, c07::replay),
         "C08" => (c08::run, c08::replay),
         "C09" => (c09::run, c09::replay),
+        "C10" => (c10::run, c10::replay),
+        "C11" => (c11::run, c11::replay),
         "C13" => (c13::run, c13::replay),
         "C18" => (c18::run, c18::replay),
         _ => return None,
